@@ -37,6 +37,7 @@ REPLACEMENTS = (
     ("empty", [], True),
     ("garbage", ["garbage", "1 = N 9 0", ""], True),
     ("brace look-alikes", ["1 = N 4 2", "}", "2 = N 1 0", RAW + "} ", "{", "[EasyKeyboard]", RAW + "{ ", "3 = N 2 0", RAW + "\t}", "9 = N 0 0"], True),
+    ("header look-alikes", ["1 = N 4 2", RAW + "[ExpertSingle]", "2 = N 1 0", RAW + "[HardSingle]", RAW + "[EasyDrums]", RAW + "[Song]", RAW + "[ExpertDoubleBass]", "3 = N 2 0", RAW + "[x] y [z]"], True),
     ("forced-first", ["0 = N 0 0", "0 = N 5 0"], False),
     ("unsorted", ["60 = E a", "10 = E b"], False),
 )
